@@ -88,6 +88,19 @@ def step (st : State) (toks : List String) : State × String :=
     | some _, some k =>
       (st, showCall (getHandler st.reg k) ++ "\t#spec " ++ showCall (registered st.evs k))
     | _, _ => (st, "bad-op")
+  | "rawframe" :: _seed :: _size :: _mut :: _cuts :: declared :: rest =>
+    -- a frame over the wire, in any chunks, under any announced length: a frame that is damaged or too short is refused and no
+    -- handler runs on it (`checkFrame`); a frame that does not have the announced length never gets that far (the transport
+    -- refuses the stream); nothing panics either way.  The bytes that were sent come from the harness (`frame=`).
+    match (rest.find? (·.startsWith "frame=")).map (fun x => (x.drop 6).toString) with
+    | some h =>
+      match unhex (if h == "-" then "" else h) with
+      | some bs =>
+        let lie := declared != "-" && declared != "actual" && declared.toNat? != some bs.length
+        let fine := !lie && (checkFrame 56 bs).isSome
+        (st, if fine then "rawframe echo runs=1 panics=0" else "rawframe refused runs=0 panics=0")
+      | none => (st, "bad-op")
+    | none => (st, "bad-op")
   | ["wide", offset, delta] => (st, s!"wide seen={offset} {delta}")     -- the specification: the handler observes the value sent
   | ["proxy", tmo, _size, fault, _budget] =>
     -- C14 on the real transport: the reply is lost while its body is in flight (the handler has run).  A link that goes quiet
